@@ -51,6 +51,7 @@ struct SinkCfg {
     uint32_t a = 0;         // cookie: buffering mode; ostream: put-area capacity; istream: units per refill
     uint32_t b = 0;         // cookie: buffer size;   ostream: exceptions(badbit) flag; istream: bit0 exceptions flag, bit1 corrupt the source, rest: second extraction
     uint32_t fault = 0;     // 0 none; k: the k-th sink call (cookie write / overflow / underflow) starts failing
+    uint32_t ctx = 0;       // 1: the calls on this sink are made from a destructor while another exception is propagating (a scope guard that reports)
 };
 struct Plan {
     uint64_t seed = 0, data_seed = 1;
@@ -71,7 +72,7 @@ struct Stats {
     uint64_t fault_kinds[4] = {0};         // cookie write failure, ostream overflow failure, istream read failure, corrupted source token
     uint64_t probe[16] = {0};
 };
-enum Probe { PC_OVERFLOW_IN_PADDING = 0, PC_OVERFLOW_BETWEEN_SURROGATES, PC_EOF_AT_TOKEN_END, PC_REFILL_INSIDE_CHAR, PC_FLUSH_INSIDE_CALL, PC_KNOWN_SPLIT_CHUNK, PC_TOKEN_REJECTED, PC_SKIPPED_U16_EOF, PC_EXTRACT_WITH_WIDTH, PC_FILE_STALE_ERROR, PC_FILE_EARLIER_CALL_THREW, PC_OSTREAM_PENDING_WIDTH, PC_EXTRACT_IMBUED_LOCALE, PC__COUNT };
+enum Probe { PC_OVERFLOW_IN_PADDING = 0, PC_OVERFLOW_BETWEEN_SURROGATES, PC_EOF_AT_TOKEN_END, PC_REFILL_INSIDE_CHAR, PC_FLUSH_INSIDE_CALL, PC_KNOWN_SPLIT_CHUNK, PC_TOKEN_REJECTED, PC_SKIPPED_U16_EOF, PC_EXTRACT_WITH_WIDTH, PC_FILE_STALE_ERROR, PC_FILE_EARLIER_CALL_THREW, PC_OSTREAM_PENDING_WIDTH, PC_EXTRACT_IMBUED_LOCALE, PC_CALL_DURING_UNWINDING, PC__COUNT };
 const char *probe_name(int i);
 
 struct RunResult { Viol viol; uint64_t sig = 0; bool nontrivial = false; uint64_t pairs = 0; };
